@@ -237,6 +237,7 @@ func (am *AccountingManager) Stop() error {
 		am.logger.Warn("Failed to persist pending records", zap.Error(err))
 	}
 
+	am.verifCrashPoint(12, "")
 	// Cancel context and wait for workers
 	am.cancel()
 	am.wg.Wait()
@@ -781,6 +782,7 @@ func (am *AccountingManager) persistActiveSession(session *AccountingSession) {
 		return
 	}
 
+	am.verifCrashPoint(20, path)
 	if err := os.WriteFile(path, data, 0600); err != nil {
 		am.logger.Debug("Failed to persist session", zap.Error(err))
 	}
@@ -807,6 +809,7 @@ func (am *AccountingManager) persistPendingRecords() error {
 		return fmt.Errorf("marshal pending records: %w", err)
 	}
 
+	am.verifCrashPoint(21, path)
 	if err := os.WriteFile(path, data, 0600); err != nil {
 		return fmt.Errorf("write pending records: %w", err)
 	}
